@@ -173,9 +173,11 @@ class Ctx:
         return rc, out, time.time() - t
 
     def tlc_gen(self, module, cfg_text, name, tag="SCRIPT", workers=int(os.environ.get("VERIF_WORKERS", "8")), timeout=900, simulate=None,
-                expect_violation=False, exhaustive=True, env=None):
-        """model-check the design (invariants/properties of the cfg) and collect emitted scripts"""
-        rc, out, dt = self.tlc(module, cfg_text, name, workers=workers, timeout=timeout, simulate=simulate, env=env)
+                expect_violation=False, exhaustive=True, env=None, coverage=False):
+        """model-check the design (invariants/properties of the cfg) and collect emitted scripts.
+        coverage=True adds `-coverage 1` and records how often each action of the spec was taken (anti-vacuity)."""
+        rc, out, dt = self.tlc(module, cfg_text, name, workers=workers, timeout=timeout, simulate=simulate, env=env,
+                               extra=("-coverage", "1") if coverage else ())
         if rc == 124:
             raise ToolError("TLC generation %s timed out" % name)
         violated = ("is violated" in out) or ("Error:" in out and "violated" in out)
@@ -204,6 +206,15 @@ class Ctx:
         self.cov["tlc_runs"].append({"run": name, "module": module, "distinct_states": dist, "states_generated": gen,
                                      "depth": depth, "scripts": len(scripts), "mode": "simulate" if simulate else "exhaustive-bfs",
                                      "wall_s": round(dt, 1)})
+        if coverage:
+            acts = {}
+            for an, _d, tot in re.findall(r"^<(\w+) line \d+, col \d+ to line \d+, col \d+ of module \w+(?: \([\d ]+\))?>: (\d+):(\d+)", out, re.M):
+                if an != "Init":
+                    acts[an] = acts.get(an, 0) + int(tot)
+            self.cov["tlc_runs"][-1]["action_counts"] = acts
+            never = sorted(a for a, c in acts.items() if c == 0)
+            if never:
+                raise ToolError("anti-vacuity: actions never taken in %s: %s" % (name, never))
         if exhaustive and not simulate:
             self.cov["exhaustive"] = True
         self.log("TLC %s: %d distinct states, %d generated, depth %d, %d scripts, %.1fs" % (name, dist, gen, depth, len(scripts), dt))
